@@ -31,6 +31,14 @@ func c03Round2(c *Ctx) {
 		c.Check(f.OK, "R03g", f.Key, f.Pos, "bounded", f.Detail)
 	}
 	c.runControl("R03g length octet control (ctl/lenoct.Put)", "lenoct.Put", lengthOctets)
+	c.Rule("R03j", "the Debian signer's archive reader reads from the byte counter itself, so counted positions are archive positions", 1)
+	for _, f := range counterDirectlyUnderReader(p) {
+		c.Check(f.OK, "R03j", f.Key, f.Pos, f.Detail, f.Detail)
+	}
+	c.Rule("R03k", "the name and extra field kept for a ZIP local header are read from the local header itself (shared with C17 R17r)", 2)
+	for _, f := range localHeaderFromItself(p) {
+		c.Check(f.OK, "R03k", f.Key, f.Pos, "", f.Detail)
+	}
 	c.Rule("R03i", "re-signing a xar shifts the recorded heap offset of every data entry", 1)
 	for _, f := range xarOffsetsRelocated(p) {
 		c.Check(f.OK, "R03i", f.Key, f.Pos, "every iteration shifts its entry", f.Detail)
